@@ -14,7 +14,8 @@ run_demo() {  # run the demo against tree $WT
   ORIG=$(grep -rhoE "/tmp/mut_C[0-9]+[a-z]?" . 2>/dev/null | grep -v _target | sort | head -1)
   [ -n "$ORIG" ] && grep -rlE "$ORIG" . | xargs sed -i "s#$ORIG#$WT#g"
   if [ -f Cargo.toml ]; then cp $WT/Cargo.lock . 2>/dev/null; CARGO_NET_OFFLINE=true timeout 1500 cargo run --offline --quiet --target-dir $TD/demo >/tmp/vm_${TAG}_demo.log 2>&1; echo $?
-  else SH=$(ls *.sh | head -1); INTERP=sh; head -1 $SH | grep -q bash && INTERP=bash; PNA_TARGET_DIR=$TD CARGO_TARGET_DIR=$TD timeout 1500 $INTERP ./$SH >/tmp/vm_${TAG}_demo.log 2>&1; echo $?; fi
+  else (cd $WT && CARGO_NET_OFFLINE=true cargo build --offline -q -p portable-network-archive --target-dir $TD >/dev/null 2>&1)   # a demo that finds a binary does not rebuild it
+    SH=$(ls *.sh | head -1); INTERP=sh; head -1 $SH | grep -q bash && INTERP=bash; PNA_TARGET_DIR=$TD CARGO_TARGET_DIR=$TD timeout 1500 $INTERP ./$SH >/tmp/vm_${TAG}_demo.log 2>&1; echo $?; fi
 }
 D0=$(run_demo)
 cd $WT && git apply "$M/patch.diff" || { echo "RESULT $M: patch does not apply"; exit 2; }
